@@ -87,6 +87,8 @@ func init() {
 
 type c02State struct {
 	contPending  bool
+	contNoCond   bool // a continue was taken and the loop's per-iteration condition has not been evaluated since
+	contLoop     *ast.RangeStmt // … in the body run by this statement loop
 	breakPending bool
 	breakCond    bool                          // a condition was evaluated inside the break arm (e.g. a level test)
 	breakRoot    ast.Expr                      // the if-condition that established the break arm
@@ -97,7 +99,7 @@ type c02State struct {
 }
 
 func (s *c02State) clone() *c02State {
-	n := &c02State{contPending: s.contPending, breakPending: s.breakPending, breakCond: s.breakCond, breakRoot: s.breakRoot, okOf: map[types.Object]string{}, okSrc: map[types.Object]types.Object{}, unchecked: map[types.Object]token.Pos{}, nonNil: map[types.Object]token.Pos{}}
+	n := &c02State{contPending: s.contPending, contNoCond: s.contNoCond, contLoop: s.contLoop, breakPending: s.breakPending, breakCond: s.breakCond, breakRoot: s.breakRoot, okOf: map[types.Object]string{}, okSrc: map[types.Object]types.Object{}, unchecked: map[types.Object]token.Pos{}, nonNil: map[types.Object]token.Pos{}}
 	for k, v := range s.okSrc {
 		n.okSrc[k] = v
 	}
@@ -188,6 +190,78 @@ func c02Run(r *Run) {
 		ast.Inspect(fd.Body, func(n ast.Node) bool {
 			if rs, ok := n.(*ast.RangeStmt); ok && isStmtList(info.TypeOf(rs.X)) {
 				stmtLoops[rs] = true
+			}
+			return true
+		})
+		// the loop's per-iteration condition: evaluations of a child held in a field of the receiver
+		// (u.Condition.GetValue(ctx), also the increment of a for) that sit inside the Go loop which
+		// encloses the statement loop — what `continue` must still reach before the next iteration
+		condEvals := map[*ast.CallExpr]bool{}
+		perIteration := map[*ast.RangeStmt]bool{}
+		var recvObj types.Object
+		if fd.Recv != nil && len(fd.Recv.List) == 1 && len(fd.Recv.List[0].Names) == 1 {
+			recvObj = info.Defs[fd.Recv.List[0].Names[0]]
+		}
+		isCondField := func(e ast.Expr) bool {
+			se, ok := ast.Unparen(e).(*ast.SelectorExpr)
+			if !ok || recvObj == nil {
+				return false
+			}
+			id, ok := ast.Unparen(se.X).(*ast.Ident)
+			if !ok || info.Uses[id] != recvObj {
+				return false
+			}
+			return isNamed(info.TypeOf(se), modPath+"/data", "GetValue")
+		}
+		mentionsCondField := func(e ast.Expr) bool {
+			found := false
+			ast.Inspect(e, func(n ast.Node) bool {
+				if x, ok := n.(ast.Expr); ok && isCondField(x) {
+					found = true
+				}
+				return !found
+			})
+			return found
+		}
+		ast.Inspect(fd.Body, func(n ast.Node) bool {
+			fs, ok := n.(*ast.ForStmt)
+			if !ok {
+				return true
+			}
+			var inner []*ast.RangeStmt
+			var evals []*ast.CallExpr
+			ast.Inspect(fs.Body, func(m ast.Node) bool {
+				switch x := m.(type) {
+				case *ast.FuncLit:
+					return false
+				case *ast.RangeStmt:
+					if stmtLoops[x] {
+						inner = append(inner, x)
+					}
+				case *ast.CallExpr:
+					if se, ok := ast.Unparen(x.Fun).(*ast.SelectorExpr); ok && se.Sel.Name == "GetValue" && isCondField(se.X) {
+						evals = append(evals, x)
+					}
+				}
+				return true
+			})
+			if fs.Cond != nil {
+				ast.Inspect(fs.Cond, func(m ast.Node) bool {
+					if x, ok := m.(*ast.CallExpr); ok {
+						if se, ok := ast.Unparen(x.Fun).(*ast.SelectorExpr); ok && se.Sel.Name == "GetValue" && isCondField(se.X) {
+							evals = append(evals, x)
+						}
+					}
+					return true
+				})
+			}
+			if len(inner) > 0 && len(evals) > 0 {
+				for _, rs := range inner {
+					perIteration[rs] = true
+				}
+				for _, c := range evals {
+					condEvals[c] = true
+				}
 			}
 			return true
 		})
@@ -344,6 +418,10 @@ func c02Run(r *Run) {
 			x, y := a.(*c02State), b.(*c02State)
 			n := x.clone()
 			n.contPending = x.contPending || y.contPending
+			n.contNoCond = x.contNoCond || y.contNoCond
+			if n.contLoop == nil {
+				n.contLoop = y.contLoop
+			}
 			n.breakPending = x.breakPending && y.breakPending
 			n.breakCond = x.breakCond || y.breakCond
 			for k, v := range y.unchecked {
@@ -365,7 +443,7 @@ func c02Run(r *Run) {
 		}
 		h.Equal = func(a, b State) bool {
 			x, y := a.(*c02State), b.(*c02State)
-			if x.contPending != y.contPending || x.breakPending != y.breakPending || x.breakCond != y.breakCond || len(x.unchecked) != len(y.unchecked) || len(x.okOf) != len(y.okOf) || len(x.nonNil) != len(y.nonNil) {
+			if x.contPending != y.contPending || x.contNoCond != y.contNoCond || x.breakPending != y.breakPending || x.breakCond != y.breakCond || len(x.unchecked) != len(y.unchecked) || len(x.okOf) != len(y.okOf) || len(x.nonNil) != len(y.nonNil) {
 				return false
 			}
 			for k := range x.unchecked {
@@ -416,10 +494,26 @@ func c02Run(r *Run) {
 			}
 			return true
 		})
+		var curStmtLoop *ast.RangeStmt
+		contArmIn := map[*ast.RangeStmt]bool{}
+		stmtLoopAt := func(pos token.Pos) *ast.RangeStmt {
+			var best *ast.RangeStmt
+			for rs := range stmtLoops {
+				if pos >= rs.Body.Pos() && pos < rs.Body.End() && (best == nil || rs.Pos() > best.Pos()) {
+					best = rs
+				}
+			}
+			return best
+		}
 		setKind := func(s *c02State, kind string, root ast.Expr) {
 			switch kind {
 			case "Continue":
 				s.contPending = true
+				s.contNoCond = true
+				s.contLoop = curStmtLoop
+				if curStmtLoop != nil {
+					contArmIn[curStmtLoop] = true
+				}
 			case "Break":
 				s.breakPending = true
 				s.breakCond = false
@@ -429,6 +523,9 @@ func c02Run(r *Run) {
 		h.Cond = func(e ast.Expr, truth bool, st State) State {
 			s := st.(*c02State)
 			examine(s, e)
+			if s.contNoCond && mentionsCondField(e) {
+				s.contNoCond = false // `if u.Condition != nil { … }`: a loop without a condition has none to re-test
+			}
 			if s.breakPending && (rootOf[e] == nil || rootOf[e] != s.breakRoot) && isIntCompare(info, e) {
 				// a level test inside the break arm: handing a break on is then conditional
 				s.breakCond = true
@@ -436,6 +533,7 @@ func c02Run(r *Run) {
 			switch x := ast.Unparen(e).(type) {
 			case *ast.Ident:
 				if kind, ok := s.okOf[info.Uses[x]]; ok && truth {
+					curStmtLoop = stmtLoopAt(e.Pos())
 					setKind(s, kind, rootOf[e])
 				}
 				if src, ok := s.okSrc[info.Uses[x]]; ok && truth {
@@ -475,6 +573,7 @@ func c02Run(r *Run) {
 			}
 			for _, t := range cc.List {
 				if tv, ok := info.Types[t]; ok && tv.IsType() {
+					curStmtLoop = stmtLoopAt(cc.Pos())
 					setKind(s, controlKind(tv.Type), nil)
 				}
 			}
@@ -485,6 +584,14 @@ func c02Run(r *Run) {
 			if rs, ok := stm.(*ast.RangeStmt); ok && stmtLoops[rs] {
 				// entering the statement loop from outside: a new iteration of the construct
 				s.contPending = false
+				if s.contNoCond && len(condEvals) > 0 && perIteration[rs] && s.contLoop == rs {
+					rec("C02-CONT", "condition-after-continue:"+strings.ReplaceAll(exprStr(rs.X), " ", ""), rs.Pos(), false, "after a continue the next iteration of the body starts without the loop's condition having been evaluated: `continue` must go to the condition test (do-while / do-until: the test at the end of the body), not around it")
+				} else if len(condEvals) > 0 && perIteration[rs] && contArmIn[rs] {
+					rec("C02-CONT", "condition-after-continue:"+strings.ReplaceAll(exprStr(rs.X), " ", ""), rs.Pos(), true, "every way from a continue arm to the next iteration passes the loop's condition")
+				}
+				if s.contLoop == rs || s.contLoop == nil {
+					s.contNoCond = false
+				}
 			}
 		}
 		h.LoopHead = func(loop ast.Stmt, st State) State {
@@ -499,6 +606,9 @@ func c02Run(r *Run) {
 			s := st.(*c02State)
 			switch x := e.(type) {
 			case *ast.CallExpr:
+				if condEvals[x] {
+					s.contNoCond = false
+				}
 				// arguments are handed on
 				for _, a := range x.Args {
 					consume(s, a)
@@ -653,7 +763,7 @@ func c02Run(r *Run) {
 				key := "continue-arm:" + strings.ReplaceAll(exprStr(rs.X), " ", "")
 				bad := false
 				for _, f := range fs {
-					if f.rule == "C02-CONT" && f.pos == rs.Pos() {
+					if f.rule == "C02-CONT" && f.pos == rs.Pos() && strings.Contains(f.key, "#continue-arm:") {
 						bad = true
 					}
 				}
